@@ -10,4 +10,8 @@ if [ -d replay ]; then
 fi
 echo 'use vstd::prelude::*; verus!{ proof fn warm() ensures 1 + 1 == 2int {} } fn main(){}' > .cache/gen/warm.rs
 (cd .cache/gen && verus warm.rs >/dev/null 2>&1) || true
+if [ -d kani ]; then
+  cp /repo/Cargo.lock kani/Cargo.lock
+  (cd kani && CARGO_TARGET_DIR=/verif/.cache/kani-target cargo kani --harness u64_to_bytes_is_canon --output-format terse >/dev/null 2>&1) || echo "setup: kani warm-up failed (checks will report it)"
+fi
 echo setup done
